@@ -1,0 +1,116 @@
+//! Scheduling shim for the fast_verify randomizer search (only with `--cfg hbs_lms_verif_sched`,
+//! which additionally needs the `shuttle` crate that the verification harness's shadow manifest
+//! provides). It maps the three concurrency seams used by `optimize_message_hash` /
+//! `thread_optimize_message_hash` -- crossbeam's `scope` + `spawn`, the unbounded channel and
+//! `OsRng` -- onto shuttle's controlled scheduler and a deterministic generator, with the same call
+//! shapes, so that the unmodified call sites run under exhaustive schedule exploration.
+
+use std::sync::atomic::{AtomicU64, AtomicUsize, Ordering};
+use std::sync::Mutex;
+
+static NEXT_WORKER: AtomicUsize = AtomicUsize::new(0);
+static RNG_COUNTER: AtomicU64 = AtomicU64::new(0);
+static DELIVERIES: Mutex<Vec<usize>> = Mutex::new(Vec::new());
+
+shuttle::thread_local! {
+    static WORKER_ID: core::cell::Cell<usize> = core::cell::Cell::new(usize::MAX);
+}
+
+/// Called by the harness at the start of every execution.
+pub fn reset() {
+    NEXT_WORKER.store(0, Ordering::SeqCst);
+    RNG_COUNTER.store(0, Ordering::SeqCst);
+    DELIVERIES.lock().unwrap().clear();
+}
+
+/// Order in which the workers delivered their result in the current execution.
+pub fn deliveries() -> Vec<usize> {
+    DELIVERIES.lock().unwrap().clone()
+}
+
+pub struct Sender<T>(shuttle::sync::mpsc::Sender<T>);
+pub struct Receiver<T>(shuttle::sync::mpsc::Receiver<T>);
+
+impl<T> Clone for Sender<T> {
+    fn clone(&self) -> Self {
+        Sender(self.0.clone())
+    }
+}
+
+impl<T> Sender<T> {
+    pub fn send(&self, value: T) -> Result<(), ()> {
+        let id = WORKER_ID.with(|w| w.get());
+        let result = self.0.send(value).map_err(|_| ());
+        DELIVERIES.lock().unwrap().push(id);
+        result
+    }
+}
+
+impl<T> Receiver<T> {
+    pub fn iter(&self) -> shuttle::sync::mpsc::Iter<'_, T> {
+        self.0.iter()
+    }
+}
+
+pub fn unbounded<T>() -> (Sender<T>, Receiver<T>) {
+    let (tx, rx) = shuttle::sync::mpsc::channel();
+    (Sender(tx), Receiver(rx))
+}
+
+pub struct Scope<'scope, 'env: 'scope>(&'scope shuttle::thread::Scope<'scope, 'env>);
+
+/// Argument handed to spawned closures (crossbeam passes the scope; the call sites ignore it).
+pub struct Nested;
+
+impl<'scope, 'env> Scope<'scope, 'env> {
+    pub fn spawn<F, T>(&self, f: F)
+    where
+        F: FnOnce(&Nested) -> T + Send + 'scope,
+        T: Send + 'scope,
+    {
+        let id = NEXT_WORKER.fetch_add(1, Ordering::SeqCst);
+        self.0.spawn(move || {
+            WORKER_ID.with(|w| w.set(id));
+            f(&Nested)
+        });
+    }
+}
+
+pub fn scope<'env, F, R>(f: F) -> Result<R, ()>
+where
+    F: for<'scope> FnOnce(&Scope<'scope, 'env>) -> R,
+{
+    Ok(shuttle::thread::scope(|s| f(&Scope(s))))
+}
+
+/// Deterministic stand-in for `rand::rngs::OsRng` (shuttle's DFS scheduler refuses random data).
+pub struct OsRng;
+
+impl rand::RngCore for OsRng {
+    fn next_u32(&mut self) -> u32 {
+        self.next_u64() as u32
+    }
+
+    fn next_u64(&mut self) -> u64 {
+        // splitmix64 over a global counter
+        let mut z = RNG_COUNTER
+            .fetch_add(1, Ordering::SeqCst)
+            .wrapping_add(1)
+            .wrapping_mul(0x9e3779b97f4a7c15);
+        z = (z ^ (z >> 30)).wrapping_mul(0xbf58476d1ce4e5b9);
+        z = (z ^ (z >> 27)).wrapping_mul(0x94d049bb133111eb);
+        z ^ (z >> 31)
+    }
+
+    fn fill_bytes(&mut self, dest: &mut [u8]) {
+        for chunk in dest.chunks_mut(8) {
+            let v = self.next_u64().to_le_bytes();
+            chunk.copy_from_slice(&v[..chunk.len()]);
+        }
+    }
+
+    fn try_fill_bytes(&mut self, dest: &mut [u8]) -> Result<(), rand::Error> {
+        self.fill_bytes(dest);
+        Ok(())
+    }
+}
